@@ -508,6 +508,23 @@ def mod_reduced(fi, modulus=12, names=('NOTES_PER_OCTAVE',)):
         return (BAD, '%s reduces %s with loops, but %s: the value %d is returned although it is outside 0..%d' % (holder.qualname, v.id, '; '.join(bad), modulus, modulus - 1)
                 if any('stops' in b for b in bad) else '%s reduces %s with loops, but %s' % (holder.qualname, v.id, '; '.join(bad)))
       return (OK, '%s is brought into 0..%d by a pair of loops whose tests are exact at -1, 0, %d and %d' % (v.id, modulus - 1, modulus - 1, modulus))
+  # a wrap written for one side only: `x + N if x < 0 else x` brings a negative value back, a value of N or more stays as it is
+  for r in rets:
+    v, holder = r.value, fi
+    if isinstance(v, ast.Call) and len(rets) == 1:
+      g = mod.functions.get(dotted(v.func) or '')
+      grets = [x for x in U.walk_stmts(g.node, into_nested=False) if isinstance(x, ast.Return)] if g is not None else []
+      if len(grets) == 1:
+        holder, v = g, grets[0].value
+    if isinstance(v, ast.IfExp):
+      for shifted, plain in ((v.body, v.orelse), (v.orelse, v.body)):
+        if isinstance(shifted, ast.BinOp) and isinstance(shifted.op, (ast.Add, ast.Sub)) and is_modulus(shifted.right) and norm_text(shifted.left) == norm_text(plain):
+          inner = U.expand_locals(holder.node, plain, at=grets[0] if holder is not fi else r)
+          has_mod = any(isinstance(n, ast.BinOp) and isinstance(n.op, ast.Mod) for n in ast.walk(inner))
+          if isinstance(inner, ast.BinOp) and isinstance(inner.op, (ast.Add, ast.Sub)) and not has_mod:
+            side = 'below 0' if isinstance(shifted.op, ast.Add) else 'at or above %d' % modulus
+            other = '%d or more (B# -> 12)' % modulus if isinstance(shifted.op, ast.Add) else 'below 0 (Cb -> -1)'
+            return (BAD, '%s wraps %s only %s (`%s`): a value of %s is returned as it is, outside 0..%d' % (holder.qualname, norm_text(plain), side, norm_text(v)[:60], other, modulus - 1))
   nodes = U.reachable_nodes(fi, depth=3)
   any_mod = any((isinstance(n, ast.BinOp) and isinstance(n.op, ast.Mod) and is_modulus(n.right)) or
                 (isinstance(n, ast.AugAssign) and isinstance(n.op, ast.Mod) and is_modulus(n.value)) or
